@@ -292,6 +292,7 @@ class Sim(object):
     self.role_counts = {}
     self.labels = {}
     self.stall_plan = {}    # step index -> microseconds
+    self.stall_roles = None # if set: only threads of these roles are stalled
     self.jitter_us = None   # callable(ctl, d_us) -> extra us, or None
     self.record_steps = record_steps
     self.step_log = [] if record_steps else None
@@ -476,9 +477,13 @@ class Sim(object):
     if self.stall_plan:
       d = self.stall_plan.pop(self.steps, None)
       if d is not None:
-        self.fault('stall')
-        self._sleep(ctl, d, 'stall')
-        return
+        if self.stall_roles is not None and ctl.role not in self.stall_roles:
+          # this stall is meant for another kind of thread: keep it armed for the next step
+          self.stall_plan[self.steps + 1] = d
+        else:
+          self.fault('stall')
+          self._sleep(ctl, d, 'stall')
+          return
     cands = self._candidates()
     if len(cands) == 1 and cands[0] is ctl:
       return
